@@ -36,8 +36,8 @@ def _install_tap():
     from dliswriter.file import writer as W
     orig = W.ByteWriter.write_bytes
 
-    def tapped(self, bts, size=None):
-        orig(self, bts, size)
+    def tapped(self, *args, **kwargs):
+        orig(self, *args, **kwargs)
         try:
             with open(self.filename, 'rb') as f:
                 disk = f.read()
@@ -301,7 +301,8 @@ def run_machine(c):
         disk_now = open(path, 'rb').read() if os.path.exists(path) else b''
         if fin and disk_now != expected:
             viol.append(("C10:machine:final-content", f"B={B} history={hist}: disk {len(disk_now)} B != {len(expected)} B added"))
-        return (out._filled_size, w._append, w.total_size - len(disk_now), fin, len(expected) - len(disk_now) - out._filled_size)
+        # (whether a physical write has happened is observed through the tap, not read from a private attribute)
+        return (out._filled_size, len(FLUSHES) > 0, w.total_size - len(disk_now), fin, len(expected) - len(disk_now) - out._filled_size)
 
     def _boundaries(hist):
         s, acc = {0}, 0
@@ -407,14 +408,15 @@ def run_tlc_conformance(c):
             f.write(b'\xee' * G)
         w = ByteWriter(fpath)
         out = BufferedOutput(B, w)
-        states = [{'filled': out._filled_size, 'disk': os.path.getsize(fpath), 'opened': bool(w._append), 'n': 0}]
+        del FLUSHES[:]                      # the tap on ByteWriter.write_bytes records every physical write
+        states = [{'filled': out._filled_size, 'disk': os.path.getsize(fpath), 'opened': len(FLUSHES) > 0, 'n': 0}]
         for j, a in enumerate(actions):
             if a == 'Final':
                 out.pass_bytes_to_writer()
             else:
                 s_ = int(a[4:-1])
                 out.add_bytes(bytes((j * 37 + k) % 251 for k in range(s_)))
-            states.append({'filled': out._filled_size, 'disk': os.path.getsize(fpath), 'opened': bool(w._append), 'n': j + 1})
+            states.append({'filled': out._filled_size, 'disk': os.path.getsize(fpath), 'opened': len(FLUSHES) > 0, 'n': j + 1})
         return states
 
     init = json_key(run_actions([])[0])
